@@ -868,65 +868,10 @@ func (zl *zlexer) Next() (lex, bool) {
 			}
 
 			var retL lex
-			if stri == 0 {
-				// Space directly in the beginning, handled in the grammar
-			} else if zl.owner {
+			if stri != 0 {
 				// If we have a string and it's the first, make it an owner
-				l.value = zOwner
-				l.token = string(str[:stri])
-
-				// escape $... start with a \ not a $, so this will work
-				switch strings.ToUpper(l.token) {
-				case "$TTL":
-					l.value = zDirTTL
-				case "$ORIGIN":
-					l.value = zDirOrigin
-				case "$INCLUDE":
-					l.value = zDirInclude
-				case "$GENERATE":
-					l.value = zDirGenerate
-				}
-
-				retL = *l
-			} else {
-				l.value = zString
-				l.token = string(str[:stri])
-
-				if !zl.rrtype {
-					tokenUpper := strings.ToUpper(l.token)
-					if t, ok := StringToType[tokenUpper]; ok {
-						l.value = zRrtpe
-						l.torc = t
-
-						zl.rrtype = true
-					} else if strings.HasPrefix(tokenUpper, "TYPE") {
-						t, ok := typeToInt(l.token)
-						if !ok {
-							l.token = "unknown RR type"
-							l.err = true
-							return *l, true
-						}
-
-						l.value = zRrtpe
-						l.torc = t
-
-						zl.rrtype = true
-					}
-
-					if t, ok := StringToClass[tokenUpper]; ok {
-						l.value = zClass
-						l.torc = t
-					} else if strings.HasPrefix(tokenUpper, "CLASS") {
-						t, ok := classToInt(l.token)
-						if !ok {
-							l.token = "unknown class"
-							l.err = true
-							return *l, true
-						}
-
-						l.value = zClass
-						l.torc = t
-					}
+				if !zl.text(l, str[:stri]) {
+					return *l, true
 				}
 
 				retL = *l
@@ -981,8 +926,9 @@ func (zl *zlexer) Next() (lex, bool) {
 			if stri > 0 {
 				zl.comBuf = string(com[:comi])
 
-				l.value = zString
-				l.token = string(str[:stri])
+				// the comment ends the token, just as a blank would
+				zl.text(l, str[:stri])
+				zl.owner = false
 				return *l, true
 			}
 		case '\r':
@@ -1200,6 +1146,74 @@ func (zl *zlexer) Next() (lex, bool) {
 	}
 
 	return lex{value: zEOF}, false
+}
+
+// text turns the text gathered so far into the token l: an owner name or directive
+// when it is the first thing on a line, a type or class mnemonic (or TYPEnnn / CLASSnnn)
+// as long as no type has been seen, a plain string otherwise. It returns false, with
+// the error in l, for a malformed TYPEnnn or CLASSnnn.
+func (zl *zlexer) text(l *lex, str []byte) bool {
+	l.token = string(str)
+
+	if zl.owner {
+		l.value = zOwner
+
+		// escape $... start with a \ not a $, so this will work
+		switch strings.ToUpper(l.token) {
+		case "$TTL":
+			l.value = zDirTTL
+		case "$ORIGIN":
+			l.value = zDirOrigin
+		case "$INCLUDE":
+			l.value = zDirInclude
+		case "$GENERATE":
+			l.value = zDirGenerate
+		}
+
+		return true
+	}
+
+	l.value = zString
+	if zl.rrtype {
+		return true
+	}
+
+	tokenUpper := strings.ToUpper(l.token)
+	if t, ok := StringToType[tokenUpper]; ok {
+		l.value = zRrtpe
+		l.torc = t
+
+		zl.rrtype = true
+	} else if strings.HasPrefix(tokenUpper, "TYPE") {
+		t, ok := typeToInt(l.token)
+		if !ok {
+			l.token = "unknown RR type"
+			l.err = true
+			return false
+		}
+
+		l.value = zRrtpe
+		l.torc = t
+
+		zl.rrtype = true
+	}
+
+	if t, ok := StringToClass[tokenUpper]; ok {
+		l.value = zClass
+		l.torc = t
+	} else if strings.HasPrefix(tokenUpper, "CLASS") {
+		t, ok := classToInt(l.token)
+		if !ok {
+			l.token = "unknown class"
+			l.err = true
+			return false
+		}
+
+		l.value = zClass
+		l.torc = t
+	}
+
+	return true
 }
 
 func (zl *zlexer) Comment() string {
